@@ -101,28 +101,29 @@ Qed.
 Theorem shape_value_sound : forall rho e, plus_closed rho e ->
   forall s c, sv_sym e = Some s -> sv_runs rho e c -> Forall2 (denotes rho) s c.
 Proof.
-  intros rho. induction e as [l|x st en|v IH idx|a IHa b IHb|a IHa b IHb|v IH|v IH]; intros P s c Hs Hr; simpl in *.
+  intros rho. induction e as [l|x st en|v IH idx|a IHa b IHb|a IHa b IHb|v IH|v IH|v IH]; intros P s c Hs Hr; simpl in *.
   - inversion Hr; subst. destruct (Nat.leb (List.length c) 10); [|discriminate]. inversion Hs; subst. apply const_denotes.
   - inversion Hr; subst. inversion Hs; subst. apply pyslice_F2. assumption.
-  - inversion Hr as [| |v' c0 idx' r Hv Hg| | | |]; subst. destruct (sv_sym v) as [sv0|] eqn:E; [|discriminate].
+  - inversion Hr as [| |v' c0 idx' r Hv Hg| | | | |]; subst. destruct (sv_sym v) as [sv0|] eqn:E; [|discriminate].
     exact (gather_F2 _ _ _ (IH P _ _ eq_refl Hv) idx _ _ Hs Hg).
-  - destruct P as [Pa Pb]. inversion Hr as [| | |a' b' ca cb Ha Hb| | |]; subst.
+  - destruct P as [Pa Pb]. inversion Hr as [| | |a' b' ca cb Ha Hb| | | |]; subst.
     destruct (sv_sym a) as [sa|]; [|discriminate]. destruct (sv_sym b) as [sb|]; [|discriminate].
     inversion Hs; subst. apply Forall2_app; auto.
-  - destruct P as [Pa [Pb Pn]]. inversion Hr as [| | | |a' b' ca cb Ha Hb| |]; subst.
+  - destruct P as [Pa [Pb Pn]]. inversion Hr as [| | | |a' b' ca cb Ha Hb| | |]; subst.
     destruct (sv_sym a) as [[|d0 [|? ?]]|]; try discriminate.
     destruct (sv_sym b) as [[|d1 [|? ?]]|]; try discriminate.
     destruct (add_dims d0 d1) as [d|] eqn:E; [|discriminate]. simpl in Hs. inversion Hs; subst.
     specialize (IHa Pa _ _ eq_refl Ha). specialize (IHb Pb _ _ eq_refl Hb).
     inversion IHa; subst. inversion IHb; subst.
     constructor; [|constructor]. eapply add_dims_sound; eauto; destruct d; auto.
-  - inversion Hr as [| | | | |v' c0 Hv|]; subst. destruct (sv_sym v) as [s0|] eqn:E; [|discriminate].
+  - inversion Hr as [| | | | |v' c0 Hv| |]; subst. destruct (sv_sym v) as [s0|] eqn:E; [|discriminate].
     specialize (IH P _ _ eq_refl Hv).
     destruct (no_neg s0) eqn:N.
     + inversion Hs; subst. rewrite (no_neg_abs _ _ _ N IH). assumption.
     + destruct (all_int s0) eqn:A; [|discriminate]. inversion Hs; subst. apply all_int_abs; assumption.
-  - inversion Hr as [| | | | | |v' c0 Hv]; subst. destruct (sv_sym v) as [s0|] eqn:E; [|discriminate].
+  - inversion Hr as [| | | | | |v' c0 Hv|]; subst. destruct (sv_sym v) as [s0|] eqn:E; [|discriminate].
     destruct (all_int s0); [|discriminate]. inversion Hs; subst. exact (IH P _ _ eq_refl Hv).
+  - inversion Hr as [| | | | | | |v' c0 Hv]; subst. exact (IH P _ _ Hs Hv).
 Qed.
 
 (* an all-int recorded value is the tensor itself: Shape/Gather -> Constant(value_ints) is sound *)
@@ -237,28 +238,29 @@ Proof. induction 1; constructor; eauto using denotes_weak. Qed.
 
 Theorem shape_value_nonneg : forall rho e s c, sv_sym e = Some s -> sv_runs rho e c -> Forall2 weak s c.
 Proof.
-  intros rho. induction e as [l|x st en|v IH idx|a IHa b IHb|a IHa b IHb|v IH|v IH]; intros s c Hs Hr; simpl in *.
+  intros rho. induction e as [l|x st en|v IH idx|a IHa b IHb|a IHa b IHb|v IH|v IH|v IH]; intros s c Hs Hr; simpl in *.
   - inversion Hr; subst. destruct (Nat.leb (List.length c) 10); [|discriminate]. inversion Hs; subst. apply weak_const.
   - inversion Hr; subst. inversion Hs; subst. apply pyslice_F2. eapply shape_denotes_weak; eauto.
-  - inversion Hr as [| |v' c0 idx' r Hv Hg| | | |]; subst. destruct (sv_sym v) as [sv0|] eqn:E; [|discriminate].
+  - inversion Hr as [| |v' c0 idx' r Hv Hg| | | | |]; subst. destruct (sv_sym v) as [sv0|] eqn:E; [|discriminate].
     exact (gather_F2 _ _ _ (IH _ _ eq_refl Hv) idx _ _ Hs Hg).
-  - inversion Hr as [| | |a' b' ca cb Ha Hb| | |]; subst.
+  - inversion Hr as [| | |a' b' ca cb Ha Hb| | | |]; subst.
     destruct (sv_sym a) as [sa|]; [|discriminate]. destruct (sv_sym b) as [sb|]; [|discriminate].
     inversion Hs; subst. apply Forall2_app; auto.
-  - inversion Hr as [| | | |a' b' ca cb Ha Hb| |]; subst.
+  - inversion Hr as [| | | |a' b' ca cb Ha Hb| | |]; subst.
     destruct (sv_sym a) as [[|d0 [|? ?]]|]; try discriminate.
     destruct (sv_sym b) as [[|d1 [|? ?]]|]; try discriminate.
     destruct (add_dims d0 d1) as [d|] eqn:E; [|discriminate]. simpl in Hs. inversion Hs; subst.
     specialize (IHa _ _ eq_refl Ha). specialize (IHb _ _ eq_refl Hb).
     inversion IHa; subst. inversion IHb; subst.
     constructor; [|constructor]. eapply add_dims_weak; eauto.
-  - inversion Hr as [| | | | |v' c0 Hv|]; subst. destruct (sv_sym v) as [s0|] eqn:E; [|discriminate].
+  - inversion Hr as [| | | | |v' c0 Hv| |]; subst. destruct (sv_sym v) as [s0|] eqn:E; [|discriminate].
     specialize (IH _ _ eq_refl Hv).
     destruct (no_neg s0) eqn:N.
     + inversion Hs; subst. rewrite (weak_no_neg_abs _ _ N IH). assumption.
     + destruct (all_int s0) eqn:A; [|discriminate]. inversion Hs; subst. apply weak_all_int_abs; assumption.
-  - inversion Hr as [| | | | | |v' c0 Hv]; subst. destruct (sv_sym v) as [s0|] eqn:E; [|discriminate].
+  - inversion Hr as [| | | | | |v' c0 Hv|]; subst. destruct (sv_sym v) as [s0|] eqn:E; [|discriminate].
     destruct (all_int s0); [|discriminate]. inversion Hs; subst. exact (IH _ _ eq_refl Hv).
+  - inversion Hr as [| | | | | | |v' c0 Hv]; subst. exact (IH _ _ Hs Hv).
 Qed.
 
 (* Abs -> Identity with the repaired Add evaluator: sound for every binding, no side condition *)
